@@ -31,6 +31,14 @@ COMMANDS = ["create", "create-sf", "verify", "verify-sf", "verify-dh", "diff", "
 
 
 def generate(rng, tier):
+    if rng.random() < 0.05:
+        from . import c06
+
+        sc = c06.generate_long(rng)  # chains with more than nine entries
+        sc["world"]["tree"]["top.bin"] = {"t": "f", "c": gen.unique_content(rng)}
+        sc["ops"] = [o for o in sc["ops"] if o.get("op") != "write"]
+        sc.update({"triples": "all" if tier == "thorough" else "sample", "triple_seed": rng.getrandbits(32)})
+        return sc
     env = gen.gen_env(rng)
     tree = gen.gen_tree(rng, max_entries=9, max_depth=3, hostile=0.1, min_files=2)
     # make sure there is at least one file directly in the root (for -sf variants)
